@@ -21,7 +21,7 @@ def run(tier):
     rnd = random.Random(C.seed() + 29)
     jobs, plan = [], []
     k = 0
-    reps = 3 if tier == "quick" else 14
+    reps = 6 if tier == "quick" else 18
     for algo in A.ALGO_NAMES:
         for rep in range(reps):
             what = ["scale2k", "translate-dyadic", "approx"][rep % 3]
@@ -48,10 +48,10 @@ def run(tier):
                 else:
                     prm = {"delta_kind": "pow2"}   # default delta depends on cell size (documented exception)
             if what == "scale2k":
-                scale, shift = rnd.choice([0.125, 4.0, 1024.0, 2.0 ** -20]), 0.0
+                scale, shift = rnd.choice([0.125, 4.0, 1024.0, 2.0 ** -20, 2.0 ** -30, 2.0 ** -40, 2.0 ** 20]), 0.0
                 mode, tol = "exact", 0
             elif what == "translate-dyadic":
-                scale, shift = 1.0, rnd.choice([1.0, -8.0, 64.0, 0.5])
+                scale, shift = 1.0, rnd.choice([1.0, -8.0, 64.0, 0.5, 4096.0, -65536.0, 1048576.0])
                 mode, tol = "exact", 0
                 if kind in ("rbin", "rkary"):
                     mode, tol = "approx", 3
@@ -65,6 +65,16 @@ def run(tier):
             b = dict(base, id=6000001 + k, box=image(box, scale, shift))
             jobs += [a, b]
             plan.append((a["id"], b["id"], mode, tol, {"what": what, "scale": scale, "shift": shift}))
+    # Zooming is the one algorithm that compares coordinates: far-away and tiny images, fast-refining parameters
+    for (kind, Kk, D) in (("bin", 2, 1), ("dbin", 2, 2), ("kary", 3, 1), ("kary", 2, 2)):
+        for (scale, shift) in ((1.0, 1048576.0), (1.0, 4096.0), (2.0 ** -40, 0.0), (1.0, -65536.0)):
+            k += 2
+            base = {"algo": "Zooming", "kind": kind, "K": Kk, "D": D, "n": 300, "T": 300, "prm": {"nu": 4, "rho": 0.5}, "pattern": rnd.choice(PC2.SAFE_PATTERNS), "seed": rnd.randrange(1 << 30)}
+            box = DYADIC_BOXES[D][0]
+            if kind == "kary" and Kk == 3 and shift != 0.0:
+                continue          # linspace thirds are not translation-exact
+            jobs += [dict(base, id=6000000 + k, box=box), dict(base, id=6000001 + k, box=image(box, scale, shift))]
+            plan.append((6000000 + k, 6000001 + k, "exact", 0, {"what": "scale2k" if shift == 0.0 else "translate-dyadic", "scale": scale, "shift": shift}))
     res = {t["id"]: t for t in S.pmap(S.run_session, jobs)}
     pairs = [PC2.pair(i + 1, res[a], res[b], mode=mode, tol=tol, info=info) for i, (a, b, mode, tol, info) in enumerate(plan)]
     chk.validate("Trace_Pair.tla", "Trace_Pair.cfg", pairs, "affine", own=["pair."], nontrivial=lambda p: len(p["a"]) > 40)
